@@ -62,5 +62,9 @@ func main() {
 		os.Exit(2)
 	}
 	c.run(g)
-	c.write(out, c12extra)
+	extra := c12extra
+	if prop == "C03" {
+		extra = map[string]interface{}{"partial_operation_sites": panicSiteFacts(repoDir())}
+	}
+	c.write(out, extra)
 }
